@@ -245,8 +245,8 @@ Fixpoint ns_orig_fuel (fuel : nat) (t : N) : option N :=
   end.
 Definition ns_fuel_enough : nat := 19.
 
-(* unmarshal.fastFillArray(len, val):  res := make([]T, len); res[0] = val; _len := 1;
-   for _len < len { copy(res[_len:], res[:_len]); _len <<= 1 } *)
+(* unmarshal.fastFillArray(len, val):  res := make([]T, len); if len == 0 { return res } (since 6469d55); res[0] = val;
+   _len := 1; for _len < len { copy(res[_len:], res[:_len]); _len <<= 1 } *)
 Fixpoint ffa_loop (fuel : nat) (cur len : N) : option N :=
   match fuel with
   | O => None
@@ -254,7 +254,11 @@ Fixpoint ffa_loop (fuel : nat) (cur len : N) : option N :=
   end.
 Inductive loop_res := LDone | LPanic | LRunning.
 Definition fast_fill_array (fuel : nat) (len : N) : loop_res :=
-  if len =? 0 then LPanic                      (* res[0] on an empty slice *)
+  if len =? 0 then LDone                       (* the guard of 6469d55: the empty slice is returned *)
+  else match ffa_loop fuel 1 len with Some _ => LDone | None => LRunning end.
+(* the function before 6469d55 (defect 28, fixed under C03): res[0] on an empty slice *)
+Definition fast_fill_array_orig (fuel : nat) (len : N) : loop_res :=
+  if len =? 0 then LPanic
   else match ffa_loop fuel 1 len with Some _ => LDone | None => LRunning end.
 Definition ffa_fuel (len : N) : nat := S (N.to_nat (N.log2_up len)).
 
